@@ -236,6 +236,10 @@ pub fn c15_run(ctx: &Ctx) -> i32 {
     rep.absorb("E1-proptest-header-texts", out);
     let out = run_sharded(ctx, "C15-source", ctx.budget(60_000, 1_000_000), || raw_text(&[0]), c15_source_test);
     rep.absorb("E1-proptest-sources", out);
+    if ctx.tier == Tier::Thorough {
+        crate::fuzzrun::run_into(ctx, &mut rep, crate::fuzzrun::Campaign { target: "hash_header", prop: "C15", runs_total: (ctx.scale * 8_000_000.0) as u64, max_len: 200, seeds: vec![b"// @sha256 abc\n".to_vec(), b"//\n// @sha256 // @sha256 x\r\n\nfn f(){}".to_vec()], dict: true });
+        crate::fuzzrun::run_into(ctx, &mut rep, crate::fuzzrun::Campaign { target: "text_frontend", prop: "C15", runs_total: (ctx.scale * 1_000_000.0) as u64, max_len: 2048, seeds: crate::fuzzrun::text_seeds(), dict: true });
+    }
     quota_check(&mut rep, &["header:hash-found", "header:none", "source:accepted"]);
     rep.finish()
 }
@@ -528,8 +532,41 @@ pub fn c18_run(ctx: &Ctx) -> i32 {
         },
     );
     rep.absorb("E1-proptest-vec", out);
+    if ctx.tier == Tier::Thorough {
+        crate::fuzzrun::run_into(ctx, &mut rep, crate::fuzzrun::Campaign { target: "oset_ops", prop: "C18", runs_total: (ctx.scale * 8_000_000.0) as u64, max_len: 400, seeds: vec![vec![5, 1, 3, 1, 3, 4, 2, 3, 3, 1, 2, 3, 1, 1, 2, 1]], dict: false });
+    }
     quota_check(&mut rep, &["pair:equal-sets", "pair:different-sets"]);
     rep.finish()
+}
+
+/// Decodes fuzzer bytes into a pair of u8 histories (domain 0..12) and judges them.
+pub fn c18_from_bytes(data: &[u8]) -> Result<(), Failure> {
+    let mut it = data.iter().copied();
+    let mut decode = |it: &mut dyn Iterator<Item = u8>| -> Vec<Op<u8>> {
+        let mut ops = vec![];
+        let n = (it.next().unwrap_or(0) % 40) as usize;
+        for _ in 0..n {
+            let Some(k) = it.next() else { break };
+            let mut vals = |it: &mut dyn Iterator<Item = u8>| -> Vec<u8> {
+                let m = (it.next().unwrap_or(0) % 6) as usize;
+                (0..m).map(|_| it.next().unwrap_or(0) % 12).collect()
+            };
+            ops.push(match k % 10 {
+                0 => Op::FromIter(vals(it)),
+                1 | 2 | 3 => Op::Insert(it.next().unwrap_or(0) % 12),
+                4 | 5 => Op::Extend(vals(it)),
+                6 => Op::Contains(it.next().unwrap_or(0) % 12),
+                7 => Op::Iterate,
+                8 => Op::CloneSelf,
+                _ => Op::Reset,
+            });
+        }
+        ops
+    };
+    let a = decode(&mut it);
+    let b = decode(&mut it);
+    let mut st = Stats::default();
+    c18_pair(&a, &b, &(0u8..12).collect::<Vec<_>>(), &mut st, "u8")
 }
 
 pub fn c18_replay(case: &Value) -> Result<(), Failure> {
@@ -698,6 +735,9 @@ pub fn c12_run(ctx: &Ctx) -> i32 {
     regress(ctx, &mut rep, "C12", c12_replay);
     let out = run_sharded(ctx, "C12", ctx.budget(150_000, 3_000_000), || raw_text(&[0]), c12_test);
     rep.absorb("E1-proptest", out);
+    if ctx.tier == Tier::Thorough {
+        crate::fuzzrun::run_into(ctx, &mut rep, crate::fuzzrun::Campaign { target: "text_frontend", prop: "C12", runs_total: (ctx.scale * 2_000_000.0) as u64, max_len: 2048, seeds: crate::fuzzrun::text_seeds(), dict: true });
+    }
     quota_check(&mut rep, &["attrs-on:terminal-enum", "attributes:6"]);
     rep.finish()
 }
@@ -861,6 +901,9 @@ pub fn c13_run(ctx: &Ctx) -> i32 {
     c13_deep(&mut rep);
     let out = run_sharded(ctx, "C13", ctx.budget(150_000, 3_000_000), || raw_text(&[0]), c13_test);
     rep.absorb("E1-proptest", out);
+    if ctx.tier == Tier::Thorough {
+        crate::fuzzrun::run_into(ctx, &mut rep, crate::fuzzrun::Campaign { target: "text_frontend", prop: "C13", runs_total: (ctx.scale * 2_000_000.0) as u64, max_len: 2048, seeds: crate::fuzzrun::text_seeds(), dict: true });
+    }
     quota_check(&mut rep, &["max-type-depth:2", "max-type-depth:4"]);
     rep.finish()
 }
